@@ -425,7 +425,8 @@ def config_case(case, root):
     issues, ncmp = [], 0
     try:
         set_settings("tight")
-        refs = {(): measure(root[0], root[1], limits=False)}
+        with_limits = case["backend"] in ("jax", "pytorch")  # upper limits agree across backends too (root model; tensorflow: minutes per limit, thorough C09 covers it)
+        refs = {(): measure(root[0], root[1], limits=with_limits)}
         paths = [[]]
         for name, _ in REWRITES:
             res = apply_path(root, [name])
@@ -437,7 +438,7 @@ def config_case(case, root):
             spec, obs, info = apply_path(root, path)
             ctx = dict(root=case["root"], path=path, backend=case["backend"], optimizer=case["optimizer"])
             try:
-                got = measure(spec, obs, poi=info["poi"], scale=info["scale"])
+                got = measure(spec, obs, poi=info["poi"], scale=info["scale"], limits=with_limits and not path)
             except Exception as e:
                 issues.append(C.issue(f"C15:config:{case['backend']}:{case['optimizer']}:{type(e).__name__}", f"inference raised {type(e).__name__}: {e}"[:200], **ctx))
                 continue
